@@ -163,7 +163,9 @@ pub fn dispatch(f: &[&str]) -> String {
             // the Date header value for a second since the epoch; a panic (F37: outside 1970..9999) prints PANIC, the model says panic
             use lettre::message::header::{self, Header};
             let secs: u64 = f[1].parse().unwrap();
-            let st = std::time::UNIX_EPOCH + std::time::Duration::from_secs(secs);
+            // (an optional third field: nanoseconds into that second - the header holds the time cut to the second)
+            let nanos: u32 = f.get(2).and_then(|x| x.parse().ok()).unwrap_or(0);
+            let st = std::time::UNIX_EPOCH + std::time::Duration::new(secs, nanos);
             let mut h = header::Headers::new();
             h.set(header::Date::new(st));
             format!("some\t{}", hex(h.get_raw("Date").unwrap_or("").as_bytes()))
